@@ -1279,6 +1279,7 @@ func (v *FnVC) checkCallAsserts(ins ssa.Instruction, name string, fn *ssa.Functi
 			continue
 		}
 		env := v.baseEnv()
+		env.cur = true
 		blk := v.curBlock
 		st := v.cur
 		env.lookup = func(n string) (Term, bool) { return v.localByNameAt(n, blk, ins, st) }
